@@ -270,12 +270,18 @@ class FermionicArray(AbelianArray):
         return super(FermionicArray, self.phase_sync()).item()
 
     def _map_blocks(self, fn_block=None, fn_sector=None):
+        if fn_sector is not None:
+            # need to update phase keys as well, n.b. phases of sectors that
+            # are no longer present (e.g. after aligning) are dropped, since
+            # the mapped key of such a stale sector need not be valid
+            new_phases = {
+                fn_sector(s): p
+                for s, p in self._phases.items()
+                if s in self._blocks
+            }
         super()._map_blocks(fn_block, fn_sector)
         if fn_sector is not None:
-            # need to update phase keys as well
-            self.modify(
-                phases={fn_sector(s): p for s, p in self._phases.items()}
-            )
+            self.modify(phases=new_phases)
 
     def transpose(self, axes=None, phase=True, inplace=False):
         """Transpose the fermionic array, by default accounting for the phases
